@@ -181,6 +181,7 @@ pub fn run_scenario(sc: &Scenario, opts: &RunOpts) -> RunReport {
     let mut world = World::default();
     let mut nondet = false;
     let mut tainted: BTreeSet<String> = BTreeSet::new();
+    let mut truth = Truth::default();
     let prop = opts.prop.as_str();
     for (ri, round) in sc.rounds.iter().enumerate() {
         for e in round.edits.iter() {
@@ -193,7 +194,7 @@ pub fn run_scenario(sc: &Scenario, opts: &RunOpts) -> RunReport {
         let salt = ri as u64 + 1;
         let out = evaluate(&sc.cfg, &sc.defs, &mut world, &round.plan, salt);
         account(&mut rep, &out, &round.plan);
-        let ctx = OracleCtx { cfg: &sc.cfg, defs: &sc.defs, nondeterministic_outputs: nondet, tainted: Some(&tainted) };
+        let ctx = OracleCtx { cfg: &sc.cfg, defs: &sc.defs, nondeterministic_outputs: nondet, tainted: Some(&tainted), truth: Some(&truth) };
         let mut vio = out.violations.clone();
         vio.extend(check_eval(&ctx, &out, &round.plan, &mut rep.probes));
         push(&mut rep, ri, vio);
@@ -206,6 +207,12 @@ pub fn run_scenario(sc: &Scenario, opts: &RunOpts) -> RunReport {
         }
         for j in out.ok.keys() {
             tainted.remove(&out.gv.jobs[*j].id);
+            if let Some(c) = out.consumed_vals.get(j) {
+                truth.consumed.insert(out.gv.jobs[*j].id.clone(), c.clone());
+            }
+        }
+        for (p, v) in out.produced_vals.iter() {
+            truth.produced.insert(p.clone(), *v);
         }
         match prop {
             "C07" => c07_twin(sc, &pre, &out, &round.plan, salt, ri, &mut rep),
@@ -570,7 +577,7 @@ fn c10_sweep(sc: &Scenario, pre: &World, plan: &EvalPlan, salt: u64, ri: usize, 
             let i = evaluate(&sc.cfg, &sc.defs, &mut wi, &ip, salt);
             account(rep, &i, &ip);
             *rep.faults.entry("abort_sweep_point").or_insert(0) += 1;
-            let ctx = OracleCtx { cfg: &sc.cfg, defs: &sc.defs, nondeterministic_outputs: true, tainted: None };
+            let ctx = OracleCtx { cfg: &sc.cfg, defs: &sc.defs, nondeterministic_outputs: true, tainted: None, truth: None };
             let mut vio = i.violations.clone();
             vio.extend(check_eval(&ctx, &i, &ip, &mut rep.probes));
             // a fatal engine error during an abort sweep is a C10 matter when it happens at/after the abort
